@@ -21,7 +21,7 @@ import sys
 import threading
 import time
 
-CLOSE_TIMEOUT = 15.0        # generous: a close() that takes longer is reported as "did not complete"
+CLOSE_TIMEOUT = 10.0        # generous: a close() that takes longer is reported as "did not complete"
 RUN_TIMEOUT = 50.0
 
 # coroutine qualified names of the tasks the connection and the objects it owns create
@@ -657,6 +657,13 @@ async def _do_close(world, p, label):
     except asyncio.TimeoutError:
         world.close_results.append({"peer": p, "label": label, "secs": None, "exc": "timeout"})
         return
+    except asyncio.CancelledError:
+        # not this task being cancelled: the close future itself is in the cancelled state (an earlier close() that had to be
+        # abandoned took it along) - this close() can never return normally
+        if asyncio.current_task().cancelling():
+            raise
+        world.close_results.append({"peer": p, "label": label, "secs": None, "exc": "timeout"})
+        return
     except Exception as exc:  # noqa: BLE001
         world.close_results.append({"peer": p, "label": label, "secs": round(time.monotonic() - t0, 3), "exc": type(exc).__name__})
         return
@@ -868,9 +875,13 @@ async def _main(world, case):
         it0 = loop.iteration
         loop.counting = True
         try:
-            await asyncio.wait_for(world.pcs[p].close(), CLOSE_TIMEOUT)
+            await asyncio.wait_for(world.pcs[p].close(), 3.0)      # (it has to return at once)
             final[p]["reclose"] = "ok"
         except asyncio.TimeoutError:
+            final[p]["reclose"] = "timeout"
+        except asyncio.CancelledError:
+            if asyncio.current_task().cancelling():
+                raise
             final[p]["reclose"] = "timeout"
         except Exception as exc:  # noqa: BLE001
             final[p]["reclose"] = type(exc).__name__
